@@ -145,6 +145,16 @@ Theorem C14_edited_nodeset_canonical :
       Forall (good (xdoc_of_store F merged s)) l.
 Proof. exact edited_nodeset_canonical. Qed.
 
+(** "orders and de-duplicates": sorting and de-duplicating by order key ([union_finish], what
+    the evaluator does to every node-set) is, on the edited document, sorting and de-duplicating
+    by position in the tree ([nodeset] of the specification) *)
+Theorem C14_edited_sort_by_key_is_by_position :
+  forall (F : sfacts) (merged : bool) (init : world) (ops : list op) (k : N) (s : store),
+    WGood init -> doc_at (run init ops) k = Some s -> doc_element s <> None ->
+    forall l : list node, Forall (good (xdoc_of_store F merged s)) l ->
+      map Row (union_finish (xdoc_of_store F merged s) l) = nodeset (xdoc_of_store F merged s) (map Row l).
+Proof. exact edited_sort_by_key_is_by_position. Qed.
+
 Theorem C14_edited_query_canonical :
   forall (F : sfacts) (merged : bool) (init : world) (ops : list op) (k : N) (s : store),
     WGood init -> doc_at (run init ops) k = Some s -> doc_element s <> None ->
@@ -362,6 +372,7 @@ Print Assumptions C14_bridge_parents.
 Print Assumptions C14_bridge_needs_document_element.
 Print Assumptions C14_bridge_reachable.
 Print Assumptions C14_edited_nodeset_canonical.
+Print Assumptions C14_edited_sort_by_key_is_by_position.
 Print Assumptions C14_edited_query_canonical.
 Print Assumptions C14_table_order_is_walk_order.
 Print Assumptions C14_view_rows_follow_walk.
